@@ -48,6 +48,10 @@ CHECKS = {
                 technique="bounded-exhaustive enumeration of strategy x topology x write shape x read shape x value on real proxies with a storing Redis stand-in",
                 text="Every combination of compression strategy {disabled, set_get_only, allow_all}, topology {owner proxy; non-owner proxy with active redirection, without and with UMFORWARD}, 11 write shapes (SET with/without EX/NX/PX XX, SETEX, PSETEX, SETNX, GETSET, MSET 1/3 pairs, MSETNX), value class (empty, 1 byte, all 256 byte values, RESP look-alike, incompressible, zeros, a zstd frame, OK, integer text) and read shape (GET, MGET with a missing key, GETSET) is executed; oracle: reads return the written bytes, the node stores a payload that zstd-decodes to the value with the original ttl, keys/options/non-string replies untouched, the 14 string-content commands refused and not forwarded under set_get_only, nothing altered under disabled.",
                 note="Trusted: the Redis stand-in; zstd crate for the decode check. Values are a finite class menu, not all byte strings."),
+    "C05": dict(engine="simnet", cat="model_checking", ref="3/C05",
+                technique="bounded-exhaustive enumeration of SETCLUSTER/SETREPL message sequences on a real proxy against a two-register reference model (sequential deliveries); concurrent deliveries: see level_note",
+                text="SEQUENTIAL PART: every sequence of length <= 3 (thorough 4) over 29 messages (both kinds x epoch 1..3 x force x two contents, wrong-host and compressed variants) is delivered to a fresh real ForwardHandler; after every message the reply (OK / OLD_EPOCH / ERR_NOT_MY_META), UMCTL GETEPOCH, two routing probes and UMCTL INFOREPL must equal a reference model (apply iff forced or strictly newer; wrong host changes nothing).",
+                note="Partial claim at this commit: the concurrent-delivery clause (several threads) is decided by the thrsched engine once its hooks exist; until then only sequential histories are covered. Trusted: reference model in c05.rs, Redis stand-in."),
 }
 
 NOT_YET = {
